@@ -23,6 +23,28 @@ def readOut {α : Type} (dflt : α) (inv : String) (rerr : Option String) : Exce
   | .error .reader => .ok (dflt, rerr)
   | .error _ => .error .panic
 
+/-- a reader of the translated code over a dense store (the honest reader; used by the non-vacuity examples) -/
+def genReader {H : Type} (st : List H) : List Int → List H × Option String := fun idx =>
+  match idx.mapM (fun i => st[i.toNat]?) with
+  | some hs => (hs, none)
+  | none => ([], some "missing hash")
+
+theorem mapM_map_ofNat {H : Type} (st : List H) : ∀ idx : List Nat,
+    (idx.map Int.ofNat).mapM (fun i => st[i.toNat]?) = idx.mapM (st[·]?) := by
+  intro idx
+  induction idx with
+  | nil => rfl
+  | cons a l ih =>
+    simp only [List.map_cons, List.mapM_cons, ih]
+    rfl
+
+/-- seen from the model, `genReader st` is the model's honest reader `storeReader st` -/
+theorem readerOf_genReader {H : Type} (st : List H) : readerOf (genReader st) = Tlog.storeReader st := by
+  funext idx
+  unfold readerOf genReader Tlog.storeReader
+  rw [mapM_map_ofNat]
+  cases idx.mapM (st[·]?) <;> rfl
+
 section
 variable {H : Type} [DecidableEq H] [Inhabited H] (node : H → H → H)
 
